@@ -12,7 +12,9 @@ static std::string v3(const V &v) { return dexact(v.x()) + " " + dexact(v.y()) +
 
 // type: A auto, O ortho, T triclinic, P open (explicit)
 static void mic_case(const char *kind, char type, const M &box, const V &ri, const V &rj, int na, int nb, int nc) {
-  Topology top;
+  // ONE topology for the whole stream: every case gives it a new box, as every frame of a trajectory does; whatever the object
+  // remembers from the boxes and distance calls before (cached reciprocals, a kept boundary object) must not leak into this case
+  static Topology top;
   BoundaryCondition::eBoxtype bt = type == 'A' ? BoundaryCondition::typeAuto : type == 'O' ? BoundaryCondition::typeOrthorhombic
                                    : type == 'T' ? BoundaryCondition::typeTriclinic : BoundaryCondition::typeOpen;
   top.setBox(box, bt);
